@@ -16,25 +16,44 @@ def key(rng):
 def gen_store_ops(rng, n, state, with_tmp=False, with_full=True):
     """ops over overlapping keys; state = dict(hid=..)"""
     ops = []
+    last = state.setdefault("last", {})      # key -> content of the last publish (None after a removal)
     for _ in range(n):
         r = rng.random()
         k = key(rng)
-        if r < 0.45:
+        if r < 0.12 and any(v is not None for v in last.values()):
+            # the same content published again with another type / description (what editing only the description
+            # does), and read back
+            k = rng.choice(sorted(kk for kk, v in last.items() if v is not None))
             state["hid"] += 1
             state["t"] += rng.randrange(1, 5)
             mark = "-" if state["hid"] % 100 != 1 else str(state["hid"] + 99)
             ops.append("add %s c=%s type=%s desc=%s hid=%d mark=%s time=%d user=%s" % (
-                k, rng.choice(CONTENTS), rng.choice(TYPES), rng.choice(["-", "-", "some%20text", "x"]),
+                k, last[k], rng.choice(TYPES), rng.choice(["-", "edited", "some%20text", "y"]),
                 state["hid"], mark, state["t"], rng.choice(["-", "admin"])))
+            ops.append("get %s" % k)
+            continue
+        if r < 0.45:
+            state["hid"] += 1
+            state["t"] += rng.randrange(1, 5)
+            mark = "-" if state["hid"] % 100 != 1 else str(state["hid"] + 99)
+            c = rng.choice(CONTENTS)
+            ops.append("add %s c=%s type=%s desc=%s hid=%d mark=%s time=%d user=%s" % (
+                k, c, rng.choice(TYPES), rng.choice(["-", "-", "some%20text", "x"]),
+                state["hid"], mark, state["t"], rng.choice(["-", "admin"])))
+            last[k] = c
         elif r < 0.55:
             ops.append("remove %s" % k)
+            last[k] = None
         elif r < 0.62 and with_full:
             nh = rng.choice([0, 1, 3])
             hist = ";".join("%d:%s:%d" % (1000 + i, rng.choice(CONTENTS[:4]), 50 + i) for i in range(nh)) or "-"
+            c = rng.choice(CONTENTS)
+            last[k] = c
             ops.append("full %s c=%s hist=%s type=%s desc=%s lastid=%s" % (
-                k, rng.choice(CONTENTS), hist, rng.choice(TYPES), rng.choice(["-", "imp"]), rng.choice(["-", "5000"])))
+                k, c, hist, rng.choice(TYPES), rng.choice(["-", "imp"]), rng.choice(["-", "5000"])))
         elif r < 0.66 and with_tmp:
             ops.append("tmp %s c=%s" % (k, rng.choice(CONTENTS)))
+            last[k] = None
         elif r < 0.8:
             ops.append("get %s" % k)
         elif r < 0.93:
